@@ -822,3 +822,151 @@ Proof.
   induction H as [|x a Hx _ IH]; cbn [map]; constructor; [|exact IH].
   destruct x as [[bm c]|]; [exact Hx|lia].
 Qed.
+
+(* ---------- lengths of the bit strings ---------- *)
+Lemma label_bits_length w labels : length (label_bits w labels) = w.
+Proof. unfold label_bits. rewrite map_length, seq_length. reflexivity. Qed.
+
+Lemma short_bits_length ss s : length (short_bits ss s) = ss.
+Proof. unfold short_bits. rewrite map_length, seq_length. reflexivity. Qed.
+
+Lemma node_bits_length ss mu i : ss <= 17 -> length (node_bits ss mu i) <= if in_big i then 257 else 17.
+Proof.
+  intros Hs. unfold node_bits. destruct (in_big i); [rewrite label_bits_length; lia|].
+  destruct (lookup (bm17 (in_labels i)) mu); [rewrite short_bits_length; lia|rewrite label_bits_length; lia].
+Qed.
+
+Lemma big_count_le ins : big_count ins <= length ins.
+Proof. unfold big_count. rewrite length_filter, length_lsum. unfold lsum. induction ins as [|i r IH]; cbn [map sum_list]; [lia|]. destruct (in_big i); lia. Qed.
+
+Lemma inner_bits_length ss mu ins : ss <= 17 ->
+  length (flat_map (node_bits ss mu) ins) + 17 * big_count ins <= 257 * big_count ins + 17 * length ins.
+Proof.
+  intros Hs. induction ins as [|i r IH]; [cbn; lia|].
+  cbn [flat_map]. rewrite app_length. pose proof (node_bits_length ss mu i Hs) as Hn.
+  unfold big_count in *. cbn [filter length]. destruct (in_big i); cbn [length]; lia.
+Qed.
+
+Lemma cands_length ins : length (cands ins) <= length ins.
+Proof.
+  unfold cands. rewrite length_flat_map, length_lsum. unfold lsum.
+  induction ins as [|i r IH]; cbn [map sum_list]; [lia|].
+  destruct (length (in_labels i) <=? max_short); cbn [length]; lia.
+Qed.
+
+Lemma enc_steps_length l : length (flat_map (fun i => enc_step (in_step i)) l) = 2 * length l.
+Proof. induction l as [|i r IH]; [reflexivity|]. cbn [flat_map]. rewrite app_length, IH. cbn [enc_step length]. lia. Qed.
+
+(* ---------- the bound ---------- *)
+Section Bound.
+Local Open Scope N_scope.
+
+Lemma lf_scaled x : 128 * lf x <= 384 + 129 * x.
+Proof. unfold lf. lia. Qed.
+
+Lemma blen_length (l : list byte) : blen l = N.of_nat (length l).
+Proof. reflexivity. Qed.
+
+Lemma sz_int32_nat tag k :
+  size_varint (tag * 8) <= 2 -> N.of_nat k < 34359738368 ->
+  sz_int32 tag (Z.of_nat k) <= size_varint (tag * 8) + 5.
+Proof.
+  intros Ht Hk. unfold sz_int32. destruct (Z.of_nat k =? 0)%Z; [lia|].
+  rewrite u64_of_nat by (unfold two64; lia). pose proof (sv_le5 _ Hk). lia.
+Qed.
+
+Lemma encode_root_size r n :
+  (leaf_count r = n)%nat ->
+  (node_count r = inner_count r + n)%nat ->
+  (inner_count r + 9 * big_count (inners r) + 1 <= n)%nat ->
+  N.of_nat n < 67108864 ->
+  size_slim (encode_root r) + 32 <= 8 * N.of_nat n + 256.
+Proof.
+  intros _ Hnodes Hcnt Hn.
+  unfold encode_root. cbv zeta.
+  set (nodes := bfs r). set (ins := inners r). set (B := big_count ins).
+  set (cs := cands (skipn B ins)). set (tbls := sorted_tbls cs).
+  set (ss := find_short_size tbls). set (mu := most_used tbls ss).
+  set (stepped := filter has_step ins).
+  unfold node_count in Hnodes. fold nodes in Hnodes. unfold inner_count in Hnodes, Hcnt. fold ins in Hnodes, Hcnt. fold B in Hcnt.
+  pose proof (big_count_le ins) as HB. fold B in HB.
+  destruct (find_short_size_spec tbls) as [Hss _]. fold ss in Hss. unfold max_short in Hss.
+  (* the four bitmaps *)
+  destruct (size_mk_bm false (map is_inner nodes)) as (W1 & R1 & S1 & HW1 & HR1);
+    [rewrite map_length; lia|]. rewrite map_length in HW1.
+  pose proof (inner_bits_length ss mu ins ltac:(lia)) as Hbits. fold B in Hbits.
+  destruct (size_mk_bm true (flat_map (node_bits ss mu) ins)) as (W2 & R2 & S2 & HW2 & HR2); [lia|].
+  destruct (size_mk_bm false (map (fun i => match node_short mu i with Some _ => true | None => false end) ins))
+    as (W3 & R3 & S3 & HW3 & HR3); [rewrite map_length; lia|]. rewrite map_length in HW3.
+  destruct (size_mk_bm true (map has_step ins)) as (W4 & R4 & S4 & HW4 & HR4); [rewrite map_length; lia|].
+  rewrite map_length in HW4.
+  (* the table *)
+  assert (sz_packed 32 (short_table tbls ss) <= lf (3 * N.of_nat (2 ^ ss))) as HT.
+  { rewrite <- (short_table_length tbls ss). apply sz_packed_le; [vm_compute; discriminate|].
+    eapply Forall_impl; [|apply short_table_ok; apply sorted_tbls_ok; apply cands_ok].
+    cbn beta. intros v Hv. apply sv_le3. lia. }
+  assert (64 * N.of_nat (2 ^ ss) + 17 * N.of_nat B <= 64 + 17 * N.of_nat (length ins)) as HTl.
+  { pose proof (table_len_bound cs) as H. fold tbls in H. fold ss in H.
+    pose proof (cands_length (skipn B ins)) as H2. fold cs in H2. rewrite skipn_length in H2. lia. }
+  (* steps *)
+  assert (length stepped <= length ins)%nat as HP.
+  { unfold stepped. rewrite length_filter, length_lsum. unfold lsum.
+    clear. induction ins as [|i l IH]; cbn [map sum_list]; [lia|]. destruct (has_step i); lia. }
+  (* assemble *)
+  unfold size_slim. cbn [s_bigcnt s_shortsize s_nodetype s_inners s_shortbm s_shorttable s_innerpref s_leafpref s_leaves s_unk].
+  unfold sz_msg at 1 2 3 4. change (sz_msg size_vlen 58 None) with 0. change (sz_msg size_vlen 60 None) with 0.
+  change (blen []) with 0.
+  unfold size_vlen. cbn [vl_n vl_eltcnt vl_position vl_fixed vl_bytes vl_presence vl_unk].
+  change (sz_int32 10 0) with 0. change (sz_msg size_bitmap 20 None) with 0. change (sz_int32 23 2) with 3.
+  change (blen []) with 0. unfold sz_msg.
+  pose proof (sz_int32_nat 11 B ltac:(vm_compute; discriminate) ltac:(lia)) as F1.
+  change (size_varint (11 * 8)) with 1 in F1.
+  pose proof (sz_int32_nat 14 ss ltac:(vm_compute; discriminate) ltac:(lia)) as F2'.
+  assert (sz_int32 14 (Z.of_nat ss) <= 2) as F2.
+  { unfold sz_int32. destruct (Z.of_nat ss =? 0)%Z; [lia|]. rewrite u64_of_nat by (unfold two64; lia).
+    change (size_varint (14 * 8)) with 1. pose proof (sv_le1 (N.of_nat ss)). lia. }
+  pose proof (sz_int32_nat 11 (length stepped) ltac:(vm_compute; discriminate) ltac:(lia)) as F5.
+  change (size_varint (11 * 8)) with 1 in F5.
+  assert (sz_bytes 30 (flat_map (fun i => enc_step (in_step i)) stepped) <= lf (2 * N.of_nat (length stepped))) as F6.
+  { unfold sz_bytes. destruct (flat_map (fun i => enc_step (in_step i)) stepped) eqn:E; [unfold lf; lia|].
+    rewrite <- E. etransitivity; [apply sz_lenfield_le; vm_compute; discriminate|].
+    apply lf_mono. rewrite blen_length, enc_steps_length. lia. }
+  (* length-delimited wrappers *)
+  pose proof (sz_lenfield_le 20 (size_bitmap (mk_bm false (map is_inner nodes))) ltac:(vm_compute; discriminate)) as L1.
+  pose proof (sz_lenfield_le 30 (size_bitmap (mk_bm true (flat_map (node_bits ss mu) ins))) ltac:(vm_compute; discriminate)) as L2.
+  pose proof (sz_lenfield_le 31 (size_bitmap (mk_bm false (map (fun i => match node_short mu i with Some _ => true | None => false end) ins))) ltac:(vm_compute; discriminate)) as L3.
+  pose proof (sz_lenfield_le 61 (size_bitmap (mk_bm true (map has_step ins))) ltac:(vm_compute; discriminate)) as L4.
+  pose proof (lf_mono _ _ S1) as M1. pose proof (lf_mono _ _ S2) as M2.
+  pose proof (lf_mono _ _ S3) as M3. pose proof (lf_mono _ _ S4) as M4.
+  set (c4 := sz_lenfield 61 (size_bitmap (mk_bm true (map has_step ins)))) in *.
+  set (c5 := 0 + sz_int32 11 (Z.of_nat (length stepped)) + 0 + 3 +
+             sz_bytes 30 (flat_map (fun i => enc_step (in_step i)) stepped) + c4 + 0).
+  pose proof (sz_lenfield_le 38 c5 ltac:(vm_compute; discriminate)) as L5.
+  assert (c5 <= 6 + 3 + lf (2 * N.of_nat (length stepped)) + lf (lf (10 * W4) + lf (5 * R4))) as C5 by (unfold c5; lia).
+  pose proof (lf_mono _ _ C5) as M5.
+  (* everything is linear now *)
+  pose proof (lf_scaled (10 * W1)). pose proof (lf_scaled (5 * R1)). pose proof (lf_scaled (lf (10 * W1) + lf (5 * R1))).
+  pose proof (lf_scaled (10 * W2)). pose proof (lf_scaled (5 * R2)). pose proof (lf_scaled (lf (10 * W2) + lf (5 * R2))).
+  pose proof (lf_scaled (10 * W3)). pose proof (lf_scaled (5 * R3)). pose proof (lf_scaled (lf (10 * W3) + lf (5 * R3))).
+  pose proof (lf_scaled (10 * W4)). pose proof (lf_scaled (5 * R4)). pose proof (lf_scaled (lf (10 * W4) + lf (5 * R4))).
+  pose proof (lf_scaled (3 * N.of_nat (2 ^ ss))).
+  pose proof (lf_scaled (2 * N.of_nat (length stepped))).
+  pose proof (lf_scaled (6 + 3 + lf (2 * N.of_nat (length stepped)) + lf (lf (10 * W4) + lf (5 * R4)))).
+  lia.
+Qed.
+
+End Bound.
+
+(* ---------- C17, size clause ---------- *)
+Theorem filter_size_bound o keys T :
+  o_inner o = false -> o_leaf o = false ->
+  build o keys None = Ok T ->
+  (N.of_nat (length keys) < 67108864)%N ->
+  (marshal_size T <= 8 * N.of_nat (length keys) + 256)%N.
+Proof.
+  intros _ _ Hb Hn. unfold marshal_size, encode_trie.
+  destruct (t_root T) as [r|] eqn:Hr.
+  - destruct (built_counts _ _ _ _ Hb Hr) as (H1 & H2 & H3).
+    pose proof (encode_root_size r (length keys) H1 H2 H3 Hn). lia.
+  - change (size_slim empty_slim) with 0%N. lia.
+Qed.
